@@ -262,6 +262,48 @@ def spec_from_doc(doc):
     return {"routines": routines}
 
 
+def coincidence_variant(prog):
+    """prog with one integer literal of a Branch* / Case* op replaced by the internal offset of that op's jump target"""
+    try:
+        c = norm.compile_exps(print_program(prog).text)
+    except Exception:
+        return None
+    lits = {}
+
+    def collect(x):
+        if isinstance(x, tuple):
+            if len(x) == 2 and x[0] == "int" and isinstance(x[1], int):
+                lits[x[1]] = lits.get(x[1], 0) + 1
+            for y in x:
+                collect(y)
+        elif isinstance(x, (list, dict)):
+            for y in (x.values() if isinstance(x, dict) else x):
+                collect(y)
+
+    collect(prog)
+    offs = {op.offset for r in c.routine_ops for op in r}
+    for r in c.routine_ops:
+        for op in r:
+            name = op.op_code.name
+            if name in JUMP_IDX and name not in ("Jump", "Call") and isinstance(op.params[-1], int):
+                tgt = op.params[-1]
+                for p in op.params[:-1]:
+                    # a literal that occurs once in the source, is not an offset itself and is no operator code
+                    if isinstance(p, int) and not isinstance(p, bool) and lits.get(p) == 1 and p > 12 and tgt not in lits and tgt > 12:
+                        def repl(x):
+                            if isinstance(x, tuple):
+                                if x == ("int", p):
+                                    return ("int", tgt)
+                                return tuple(repl(y) for y in x)
+                            if isinstance(x, list):
+                                return [repl(y) for y in x]
+                            if isinstance(x, dict):
+                                return {k: repl(v) for k, v in x.items()}
+                            return x
+                        return repl(prog)
+    return None
+
+
 def doc_from_spec(spec, rnd):
     """JSON document per docs/cli_api_usage.rst from an SSB spec (jump targets as 1-based positions)"""
     pos = {}
@@ -328,6 +370,18 @@ def run_shard(shard, acc):
                     compile_case(acc, root, "main.exps", [], prog, None, inp, structured=bool(cfg), rnd=rnd)
                     if i == 1:
                         acc.sample({"source": inp["text"][:400], "class": "structured" if cfg else "any"})
+                    # hostile coincidence: the same program with one integer argument of a test made equal to the compiler's
+                    # internal offset of that test's jump target (a printer that confuses argument and target shows here)
+                    p2 = coincidence_variant(prog)
+                    if p2 is not None:
+                        root = os.path.join(base, f"c{i}")
+                        os.makedirs(root)
+                        i += 1
+                        t2 = print_program(p2).text
+                        with open(os.path.join(root, "main.exps"), "w", encoding="utf-8") as f:
+                            f.write(t2)
+                        acc.count("programs_with_argument_equal_to_target_offset")
+                        compile_case(acc, root, "main.exps", [], p2, None, {"name": name + ":coincidence", "text": t2, "structured": bool(cfg)}, structured=bool(cfg), rnd=rnd)
         elif shard["kind"] == "compile_macro":
             for name, lay in macro_workload({"seed": shard["seed"], "n": shard["n"]}):
                 with lay:
